@@ -162,6 +162,10 @@ func runIPServer(ctx context.Context, log *slog.Logger, mtrcs *ipServerMetrics,
 			key := provider.Current()
 			addedCookie := false
 			for range len(ntsreq.Cookies) + len(ntsreq.CookiePlaceholders) {
+				if len(cookies) != 0 &&
+					len(cookies) >= nts.MaxResponseCookies(len(ntsreq.UniqueID.ID), len(cookies[0])) {
+					break
+				}
 				encryptedCookie, err := serverCookie.EncryptWithNonce(key.Value, key.ID)
 				if err != nil {
 					log.LogAttrs(ctx, slog.LevelInfo, "failed to encrypt cookie", slog.Any("error", err))
@@ -170,6 +174,9 @@ func runIPServer(ctx context.Context, log *slog.Logger, mtrcs *ipServerMetrics,
 				cookie := encryptedCookie.Encode()
 				cookies = append(cookies, cookie)
 				addedCookie = true
+			}
+			if addedCookie && nts.MaxResponseCookies(len(ntsreq.UniqueID.ID), len(cookies[0])) == 0 {
+				addedCookie = false
 			}
 			if !addedCookie {
 				log.LogAttrs(ctx, slog.LevelInfo, "failed to add at least one cookie")
